@@ -221,7 +221,13 @@ func (g *gservers) exec(o GOp) (req, resp string, panicked bool) {
 			p.Epsilon = &e
 		}
 		req = fmt.Sprintf("CCompute %d %s %d %s %s %s %d", o.ID, optN(o.Pre), o.Global, optN(o.Positive), optF(o.Alpha), optF(o.Eps), o.Max)
-		_, err := g.cs.BasicCompute(ctx, &computepb.BasicComputeRequest{Params: p})
+		// watchdog: the exact counterpart of the model's fuel (ghist_matches runs the model with 1500);
+		// a computation that does not end by itself is reported as the model reports fuel exhaustion
+		fc := newFuelCtx(ctx, 1500)
+		_, err := g.cs.BasicCompute(fc, &computepb.BasicComputeRequest{Params: p})
+		if fc.fired.Load() {
+			return req, "RStatus 2", false
+		}
 		return req, st(err), false
 	}
 	panic("unknown op " + o.Op)
